@@ -151,6 +151,9 @@ func (d *driver) witness(m *meta, st *stepObs, extra map[string]any) map[string]
 		"file_hex": vk.Hex(m.c.File), "file_text": fmt.Sprintf("%q", trunc(m.c.File, 700)),
 		"passphrase_hex": vk.Hex(d.passes[m.c.Pass]), "message_hex": vk.Hex(m.c.Msg),
 	}
+	if m.c.Op == "chain" {
+		w["chain"] = map[string]any{"key_file_symlink": linkNames[m.c.Link%len(linkNames)], "buffer_capacity": m.c.Cap, "prior_destination": m.c.Prior}
+	}
 	if m.b != nil {
 		w["base"] = m.b.Name
 		w["base_file_hex"] = vk.Hex(m.b.File)
@@ -458,6 +461,10 @@ func (d *driver) judgeChain(m *meta, o caseObs, legacyPriv ed25519.PrivateKey) [
 	out = append(out, b0)
 	m.b = b0
 	if ld := need("load"); ld != nil {
+		if ld.Link != "" {
+			r.Hit("key-file-behind-a-symbolic-link")
+			r.Count("key_file_symlink:"+ld.Link, 1)
+		}
 		if kind == "legacy" {
 			r.Hit("legacy-file-loads")
 			r.Hit("correct-passphrase-loads-same-key")
@@ -522,8 +529,16 @@ func (d *driver) judgeChain(m *meta, o caseObs, legacyPriv ed25519.PrivateKey) [
 		d.fileMode(m, im, "imported")
 		if l2 := need("load2"); l2 != nil {
 			r.Hit("export-import-preserves-key")
-			if d.usable(m, l2, pub0, "load after export+import") && legacyPriv == nil {
+			ok := d.usable(m, l2, pub0, "load after export+import")
+			if ok && legacyPriv == nil {
 				out = append(out, b1)
+			}
+			if ok && im.KeyCap > len(ex.Priv) {
+				r.Hit("import-from-a-buffer-with-spare-capacity")
+			}
+			if ok && l2.Link != "" {
+				r.Hit("key-file-behind-a-symbolic-link")
+				r.Count("key_file_symlink:"+l2.Link, 1)
 			}
 		}
 		if e2 := need("export2"); e2 != nil {
@@ -544,6 +559,10 @@ func (d *driver) judgeChain(m *meta, o caseObs, legacyPriv ed25519.PrivateKey) [
 	}
 	return out
 }
+
+// chainCaps: capacities of the buffers a chain hands to the code under test (0 = exact size): what os.ReadFile gives a
+// small file, exact, and the least that lets an AEAD seal a 64-byte key in place (64 + 16).
+var chainCaps = []int{512, 0, 80}
 
 var coreClass = map[string]bool{"empty": true, "1-byte": true, "32-bytes": true, "33-bytes": true, "10000-bytes": true, "non-utf8": true}
 
@@ -894,6 +913,7 @@ func Run(r *vk.Run) {
 		d.newCase(m, "chain", nil, false, pi, d.msg(crng))
 		m.c.Pas2 = d.addPass(q)
 		m.c.Prior = i % 5
+		m.c.Link, m.c.Cap = i%4, chainCaps[i%len(chainCaps)]
 		m.qClass = cls[(i+1)%len(cls)].name
 		chains = append(chains, m)
 		if thorough && i%3 == 0 {
@@ -913,6 +933,7 @@ func Run(r *vk.Run) {
 		d.newCase(ml, "chain", lf, true, pi, d.msg(crng))
 		ml.c.Pas2 = d.addPass(q)
 		ml.c.Prior = (i + 2) % 5
+		ml.c.Link, ml.c.Cap = (i+2)%4, chainCaps[(i+1)%len(chainCaps)]
 		ml.qClass = cls[(i+1)%len(cls)].name
 		legacyPriv[ml.c.ID] = priv
 		chains = append(chains, ml)
@@ -1048,6 +1069,8 @@ func Run(r *vk.Run) {
 	r.Require("address-matches-noop", n)
 	r.Require("export-import-preserves-key", 2*n)
 	r.Require("export-is-the-key", n)
+	r.Require("import-from-a-buffer-with-spare-capacity", n/2)
+	r.Require("key-file-behind-a-symbolic-link", n) // (a file system without symbolic links leaves this inconclusive)
 	r.Require("file-hides-key", n)
 	r.Require("file-mode-private", n)
 	r.Require("wrong-passphrase-fails", 10*n)
